@@ -5,8 +5,8 @@
    (NeverOverLimit, TotalWithinSum, NoEarlyReject, KeysIndependent, Remap, plus the statement by
    distribution value: ValueWithinShare, MustRespected) on every history of the tier's slices, and
    exports every history with, per step, the decision the statement demands (pass / reject / open).
-   In the thorough tier every spec mutant (a mechanism of the anchored code disabled) must violate an
-   invariant, and a non-monotone clock is explored as well.
+   Every spec mutant (a mechanism of the anchored code disabled) must violate a property invariant;
+   in the thorough tier a non-monotone clock is explored as well (MODEL-DRIFT only).
 2. Every exported history is replayed, event by event, on the real inMemoryLimiter (injected clock)
    and on the real Plugin.Do (real Start, rules, limiters map, time_field); after every event the
    harness evaluates the statement on the REAL history and compares the decision.  Two-key histories
@@ -42,14 +42,14 @@ def run(ctx):
             back = ctx.tlc_expect_ok("Throttle", "Throttle_back.cfg", timeout=600, deadlock=False)
             cases += back.printed
             back.out = ""
-            # every spec mutant must be rejected by a property invariant (the oracle is not vacuous)
-            for m in MUTANTS:
-                r = ctx.tlc("Throttle", "Throttle_mutant.cfg", timeout=300, deadlock=False, workers=4,
-                            overrides={"Mut": '"%s"' % m}, name="Throttle/mutant-%s" % m)
-                if r.kind != "invariant" or r.violated not in PROPERTY_INVARIANTS:
-                    raise vlib.Infra("spec mutant %s is not rejected by a property invariant (%s %s)" %
-                                     (m, r.kind, r.violated))
-                ctx.extra.setdefault("spec_mutants_rejected", {})[m] = r.violated
+        # every spec mutant must be rejected by a property invariant (the oracle is not vacuous)
+        for m in MUTANTS:
+            r = ctx.tlc("Throttle", "Throttle_mutant.cfg", timeout=300, deadlock=False, workers=4,
+                        overrides={"Mut": '"%s"' % m}, name="Throttle/mutant-%s" % m)
+            if r.kind != "invariant" or r.violated not in PROPERTY_INVARIANTS:
+                raise vlib.Infra("spec mutant %s is not rejected by a property invariant (%s %s)" %
+                                 (m, r.kind, r.violated))
+            ctx.extra.setdefault("spec_mutants_rejected", {})[m] = r.violated
 
     path = os.path.join(ctx.scratch, "c16_cases.ndjson")
     with open(path, "w") as f:
